@@ -8,7 +8,8 @@ import (
 	"github.com/koykov/inspector"
 )
 
-// stripToLeaf follows pointers from what GetTo handed out down to a settable scalar/string/bytes.
+// stripToLeaf follows pointers from what GetTo handed out down to a settable value: a scalar / string / bytes leaf,
+// or a struct, slice or map (paths of C15's class may end on those).
 func stripToLeaf(x any) (reflect.Value, bool) {
 	if x == nil {
 		return reflect.Value{}, false
@@ -25,16 +26,17 @@ func stripToLeaf(x any) (reflect.Value, bool) {
 	}
 	switch v.Kind() {
 	case reflect.Bool, reflect.Int, reflect.Int8, reflect.Int16, reflect.Int32, reflect.Int64, reflect.Uint, reflect.Uint8, reflect.Uint16,
-		reflect.Uint32, reflect.Uint64, reflect.Float32, reflect.Float64, reflect.String:
+		reflect.Uint32, reflect.Uint64, reflect.Float32, reflect.Float64, reflect.String, reflect.Slice, reflect.Map:
 		return v, true
-	case reflect.Slice:
-		if isByteSlice(v.Type()) {
+	case reflect.Struct:
+		if v.NumField() > 0 {
 			return v, true
 		}
 	}
 	return reflect.Value{}, false
 }
 
+// writeSentinel changes the value so that its serialisation differs, whatever it held.
 func writeSentinel(v reflect.Value) {
 	switch v.Kind() {
 	case reflect.Bool:
@@ -56,16 +58,45 @@ func writeSentinel(v reflect.Value) {
 	case reflect.String:
 		v.SetString(v.String() + "#")
 	case reflect.Slice:
-		v.SetBytes(append([]byte("#"), v.Bytes()...))
+		if isByteSlice(v.Type()) {
+			v.SetBytes(append([]byte("#"), v.Bytes()...))
+		} else if v.Len() == 0 {
+			v.Set(reflect.MakeSlice(v.Type(), 1, 1))
+		} else {
+			v.Set(reflect.MakeSlice(v.Type(), 0, 0))
+		}
+	case reflect.Map:
+		m := reflect.MakeMap(v.Type())
+		if v.Len() == 0 {
+			m.SetMapIndex(reflect.Zero(v.Type().Key()), reflect.Zero(v.Type().Elem()))
+		}
+		v.Set(m)
+	case reflect.Struct:
+		// the first field that can be changed (pointers followed; a nil pointer field is set)
+		for i := 0; i < v.NumField(); i++ {
+			f := v.Field(i)
+			if !f.CanSet() {
+				continue
+			}
+			if f.Kind() == reflect.Ptr {
+				if f.IsNil() {
+					f.Set(reflect.New(f.Type().Elem()))
+					return
+				}
+				f = f.Elem()
+			}
+			writeSentinel(f)
+			return
+		}
 	}
 }
 
 type nopIter struct{ n int }
 
-func (it *nopIter) RequireKey() bool                   { return false }
-func (it *nopIter) SetKey(any, inspector.Inspector)    {}
-func (it *nopIter) SetVal(any, inspector.Inspector)    { it.n++ }
-func (it *nopIter) Iterate() inspector.LoopCtl         { return inspector.LoopCtlNone }
+func (it *nopIter) RequireKey() bool                { return false }
+func (it *nopIter) SetKey(any, inspector.Inspector) {}
+func (it *nopIter) SetVal(any, inspector.Inspector) { it.n++ }
+func (it *nopIter) Iterate() inspector.LoopCtl      { return inspector.LoopCtlNone }
 
 // OpAlias emits one `GW` record: GetTo through a pointer, a write through the reference it returned,
 // and whether the write shows in the object; plus heap allocations per call of the read operations.
